@@ -25,6 +25,13 @@ def full_view(sim):
             sim.get_register_representations(), sim.is_done())
 
 
+def view(sim):
+    """Observable results only (registers, memory table with markers, visualisation values, metrics, done): comparisons use
+    this; the raw canonical state (full_view) is only the deduplication key."""
+    from vf.adapt import inspect as insp
+    return insp.observables(sim)
+
+
 def half_state(sim):
     st = sim.state
     pm = st.performance_metrics
@@ -40,12 +47,12 @@ def explore_program(words, data, accu, cap, p, tag):
     """BFS over call sequences on one program until no new state appears (or the instruction cap is hit)."""
     # whole-step run: the boundary states every other schedule must reproduce
     whole = toy.make_toy(words, data, accu)
-    boundary = [digest(full_view(whole))]
+    boundary = [digest(view(whole))]
     n = 0
     while not whole.is_done() and n < cap + 2:
         whole.step()
         n += 1
-        boundary.append(digest(full_view(whole)))
+        boundary.append(digest(view(whole)))
     sim0 = toy.make_toy(words, data, accu)
     ref0 = ToyRef(words, data, accu)
     seen = {digest(full_view(sim0))}
@@ -57,7 +64,7 @@ def explore_program(words, data, accu, cap, p, tag):
             if ref.count >= cap:
                 cut = True
                 continue
-            before = full_view(sim)
+            before = view(sim)
             for oi, op in enumerate(OPS):
                 s2 = copy.deepcopy(sim)
                 r2 = copy.deepcopy(ref)
@@ -82,14 +89,14 @@ def explore_program(words, data, accu, cap, p, tag):
                     p.counters["illegal-call"] += 1
                     if raised is None:
                         bad.append(("illegal-call-accepted", f"{op} in phase {r2.phase} did not raise a sequencing error"))
-                    if full_view(s2) != before:
+                    if view(s2) != before:
                         bad.append(("illegal-call-changed-state", f"{op} in phase {r2.phase} changed the state"))
                 else:
                     if raised is not None:
                         bad.append(("legal-call-rejected", f"{op} in phase {r2.phase} (done={done}) raised {raised!r}"))
                     elif done:
                         p.counters["call-after-done"] += 1
-                        if full_view(s2) != before:
+                        if view(s2) != before:
                             bad.append(("not-a-noop-when-done", f"{op} after the program finished changed the state"))
                     else:
                         if op == "step":
@@ -103,7 +110,7 @@ def explore_program(words, data, accu, cap, p, tag):
                         elif r2.phase == 1:
                             # instruction boundary: identical to the whole-step run at the same instruction count
                             p.counters["boundary"] += 1
-                            if r2.count < len(boundary) and digest(full_view(s2)) != boundary[r2.count]:
+                            if r2.count < len(boundary) and digest(view(s2)) != boundary[r2.count]:
                                 bad.append(("boundary-differs", f"state / table markers / visualisation values after {r2.count} instructions differ from the whole-step run"))
                 for f, d in bad:
                     p.violation(dict(oracle="two-phase", field=f), dict(kind="toy-steps", words=list(words), data={str(k): v for k, v in data.items()}, accu=accu, hist=list(h2)),
